@@ -25,7 +25,7 @@ ASSUMPTIONS = ['for invalid (self-touching) region polygons the code clips with 
                'regions handed to the helper have unique ids']
 N = {'quick': 2000, 'thorough': 60000}
 CLASSES = ['rect', 'concave', 'bowtie', 'nested', 'overlapping', 'mixed', 'mixed', 'edge_touching', 'extractor', 'simple_extractor', 'integer_grid', 'many_cells']
-REQUIRED = ['calls_with_more_than_2^22_line_region_pairs', 'lines_with_a_detached_outline', 'placed_baseline_directions_checked', 'integer_grid_pages', 'redistributions_after_outline_change', 'suffixed_passes', 'bent_lines_placed', 'pocket_lines_checked', 'helper_calls', 'pairs_checked', 'placed_lines', 'inside_lines_placed_unchanged', 'not_touching_pairs', 'multi_entry_lines', 'invalid_region_pairs',
+REQUIRED = ['extractor_pages_with_a_row_of_three_fragments', 'strokes_checked_for_coverage', 'calls_with_more_than_2^22_line_region_pairs', 'lines_with_a_detached_outline', 'placed_baseline_directions_checked', 'integer_grid_pages', 'redistributions_after_outline_change', 'suffixed_passes', 'bent_lines_placed', 'pocket_lines_checked', 'helper_calls', 'pairs_checked', 'placed_lines', 'inside_lines_placed_unchanged', 'not_touching_pairs', 'multi_entry_lines', 'invalid_region_pairs',
             'extractor_pages', 'multi_orientation_line_only_pages', 'simple_extractor_pages', 'simple_extractor_concave_pages']
 SHARDS = {'quick': 8, 'thorough': 16}
 
@@ -78,6 +78,14 @@ def gen(rng, i, ctx):
         hl = [(int(y), int(x0), int(x0 + rng.integers(150, 500))) for y, x0 in zip(range(80, 520, int(rng.integers(60, 120))), rng.integers(40, 200, size=8))][:int(rng.integers(1, 6))]
         vl = [(int(x), 60, int(rng.integers(300, 540))) for x in rng.choice([620, 680, 740], size=int(rng.integers(0, 3)), replace=False)]
         hl = [(y, x0, min(x1, 580)) for y, x0, x1 in hl]
+        # (round 8) one text row detected as a chain of three fragments: neighbours close enough to be joined by MERGE_LINES, the outer two too far apart
+        if hl and rng.random() < 0.5:
+            y_, x0_, x1_ = hl[int(rng.integers(0, len(hl)))]
+            if x1_ - x0_ >= 260:
+                g_ = int(rng.integers(10, 15))
+                a_ = x0_ + (x1_ - x0_) // 3
+                b_ = x0_ + 2 * (x1_ - x0_) // 3
+                hl = [h_ for h_ in hl if h_[0] != y_] + [(y_, x0_, a_), (y_, a_ + g_, b_), (y_, b_ + g_, x1_)]
         return {'cls': cls, 'options': combo, 'hlines': hl, 'vlines': vl, 'regions': [[[20, 20], [780, 20], [780, 580], [20, 580]]] if rng.random() < 0.6 else
                 [[[20, 20], [600, 20], [600, 580], [20, 580]], [[600, 20], [780, 20], [780, 580], [600, 580]]]}
     if cls == 'simple_extractor':
@@ -210,6 +218,14 @@ def gen(rng, i, ctx):
         cx, cy = r[:, 0].mean(), r[:, 1].mean()
         x0, y0, L = float(cx - rng.uniform(5, 40)), float(cy + rng.uniform(-10, 40)), float(rng.uniform(10, 60))
         lines.append({'baseline': [[x0, y0], [x0 + L, y0 + float(rng.uniform(-3, 3))]], 'heights': [float(rng.uniform(5, 15)), float(rng.uniform(2, 6))], 'kind': 'detached'})
+    if regs and rng.random() < 0.35:
+        # (round 8) a text row as the line-merging step leaves it: ten resampled points on a level row whose y values differ in the last bits (polynomial fit)
+        r = np.array(regs[int(rng.integers(0, len(regs)))])
+        cx, cy = float(r[:, 0].mean()), float(int(r[:, 1].mean()))
+        L_ = float(rng.uniform(40, 160))
+        xs_ = np.linspace(cx - L_ / 2, cx + L_ / 2, 10)
+        ys_ = cy + np.cumsum(rng.integers(0, 3, size=10)) * np.spacing(cy)
+        lines.append({'baseline': np.stack([xs_, ys_], 1).tolist(), 'heights': [12.0, 4.0], 'kind': 'resampled'})
     if rng.random() < 0.15 and len(regs) < 5:
         # (round 7) a region of 2 x 2 px (a speck kept by the region detector) crossed diagonally: the piece inside is 2.83 px long
         xs_, ys_ = float(int(rng.integers(900, 1000))), float(int(rng.integers(20, 900)))
@@ -225,11 +241,17 @@ def describe(case):
 
 
 def line_pieces(geom):
-    """the one-dimensional parts of a clipped baseline (a touching point or a stray vertex is not a piece)"""
+    """the one-dimensional parts of a clipped baseline (a touching point or a stray vertex is not a piece); parts that touch end to end are one piece
+    (GEOS may cut a line at its own vertices)"""
     if geom.geom_type == 'LineString':
         return [geom] if geom.length > 0 else []
     if geom.geom_type in ('MultiLineString', 'GeometryCollection'):
-        return [g for g in geom.geoms if g.geom_type == 'LineString' and g.length > 0]
+        parts = [g for g in geom.geoms if g.geom_type == 'LineString' and g.length > 0]
+        if len(parts) > 1:
+            from shapely.ops import linemerge
+            merged = linemerge(parts)
+            parts = list(merged.geoms) if merged.geom_type == 'MultiLineString' else [merged]
+        return parts
     return []
 
 
@@ -435,6 +457,21 @@ def check_extractor(case, mon, ctx):
     if dl and case['hlines'] and sum(len(r.lines) for r in out.regions) == 0:
         mon.violation('detected-lines-are-placed', dict(w, note='strokes present but no line placed'))
     check_page_invariants(out, mon, w)
+    if dl and not dr and not mo:
+        # (upright analysis only: in the rotated passes the stub detector reports other things than the strokes)
+        # every detected stroke lies inside a given region, so it is still there after the distribution: alone or as part of a merged line
+        placed = [np.asarray(l.baseline, dtype=np.float64) for r in out.regions for l in r.lines]
+        rows_ = {}
+        for y_, x0_, x1_ in case['hlines']:
+            rows_.setdefault(y_, []).append((x0_, x1_))
+        if any(len(v) >= 3 for v in rows_.values()):
+            mon.count('extractor_pages_with_a_row_of_three_fragments')
+        for y_, x0_, x1_ in case['hlines']:
+            mon.count('strokes_checked_for_coverage')
+            ok = any(b[:, 0].min() <= x0_ + 6 and b[:, 0].max() >= x1_ - 6 and np.abs(np.interp([x0_ + 6, x1_ - 6], b[:, 0], b[:, 1]) - y_).max() <= 6 for b in placed if len(b) >= 2 and b[-1, 0] > b[0, 0])
+            if not ok:
+                mon.violation('detected-lines-are-placed', dict(w, stroke=[y_, x0_, x1_], strokes_of_the_row=sorted(rows_[y_]), note='no placed line covers this stroke', placed_lines=len(placed)))
+                break
 
 
 def check_simple(case, mon, ctx):
